@@ -32,15 +32,44 @@ def scenario(sseed, kind, allfail=False, empty=False):
         if specs and R.random() < 0.3:
             # "tune a subset": the space is given up front and what build functions declare later is not tuned
             over.update(tune_new_entries=False, allow_new_entries=True)
+        will_restart = R.random() < (0.5 if kind == "hyperband" else 0.3) and kind != "bayes"
+        if will_restart and not allfail:
+            over["max_consecutive_failed_trials"] = R.randint(4, 8)      # fewer aborted searches among the restarted ones
         o = gen.make_oracle(R, kind, specs, d, **over)
         last_sample = {}
-        real_rv = o._random_values
+        # growth: with everything declared tunable, an ended trial may report a continuous entry its build function declared
+        # (random / Hyperband; grid growth is the grid suite's, Bayes' regressor rejects a grown space)
+        grows = kind in ("random", "hyperband") and o.tune_new_entries and (empty or R.random() < 0.3)
+        box = {"o": o, "extra_runs": 0}
 
-        def rv():
-            v = real_rv()
-            last_sample["v"] = v
-            return v
-        o._random_values = rv
+        def wrap(oracle):
+            real_rv = oracle._random_values
+
+            def rv():
+                v = real_rv()
+                last_sample["v"] = v
+                if v is None:
+                    box["gave_up"] = True
+                if v is None and oracle.tune_new_entries and any(hp.name == "late_f" for hp in oracle.hyperparameters.space):
+                    raise Violation("C11", f"{kind}: the sampler gives up (the request is answered IDLE / STOPPED) after {len(oracle.trials)} trial(s) although the "
+                                           "search space has a continuous entry (`late_f`, reported by an earlier trial): untried configurations can be found",
+                                    {"kind": kind, "tag": "gave-up-in-a-grown-space"})
+                return v
+            oracle._random_values = rv
+        wrap(o)
+
+        def discover(R_, t):
+            if grows and "late_f" not in t.hyperparameters.values and R_.random() < 0.7:
+                t.hyperparameters.Float("late_f", 0.0, 1.0)
+
+        def restart(old):
+            quiet(old.save)
+            box["extra_runs"] += len(old.ongoing_trials)
+            n2 = gen.clone_oracle(old, d)
+            quiet(n2.reload)
+            wrap(n2)
+            box["o"] = n2
+            return n2
         runs = [0]
         R1 = o.max_retries_per_trial + 1
 
@@ -65,7 +94,9 @@ def scenario(sseed, kind, allfail=False, empty=False):
                 budget_used = bool(o_.max_trials) and len(o_.trials) >= o_.max_trials
                 if budget_used:
                     return
-                if w not in stopped_seen:
+                # told STOPPED because the sampler found nothing new within its collision bound: a later request may be luckier
+                # (finite, nearly exhausted space), that is not "work handed out after the search was declared finished"
+                if w not in stopped_seen and last_sample.get("v", 0) is not None:
                     stopped_seen.append(w)
                 if kind in ("random", "bayes"):
                     if last_sample.get("v", 0) is not None:
@@ -87,9 +118,17 @@ def scenario(sseed, kind, allfail=False, empty=False):
 
         outcomes = ["INV", "FAIL", "NAN"] if allfail else None
         kw = dict(outcomes=outcomes) if outcomes else {}
-        tr = run_schedule(o, R, steps=R.randint(5, 80), on_create=on_create, fair_finish=True, **kw)
+        steps = R.randint(5, 80)
+        if will_restart:
+            # the process is replaced by a fresh one in mid-search (C07 says the search goes on as before): the search must
+            # still end, within the bound (plus the runs repeated for the trials in flight), and not early
+            kw.update(restart_at=R.randint(1, min(steps, 40)), restart=restart)
+        tr = run_schedule(o, R, steps=steps, on_create=on_create, fair_finish=True, discover=discover, **kw)
+        o = box["o"]
         fin = tr[-1] if tr and tr[-1][0] == "finished" else None
         aborted = fin[2] if fin else True
+        if fin and not fin[1] and kind == "grid" and grid_size(specs) * R1 > 300:
+            return tr, runs[0], True        # a grid too large to be finished within the request limit: no verdict
         if fin and not fin[1]:
             raise Violation("C11", f"{kind}: fair schedule did not reach STOPPED for all workers within 4000 further requests", {"kind": kind, "tag": "livelock"})
         if fin and fin[1] and not aborted:
@@ -105,6 +144,13 @@ def scenario(sseed, kind, allfail=False, empty=False):
             else:
                 nb = o._get_num_brackets()
                 bound = over["iterations"] * sum(o._get_size(b, r) for b in range(nb) for r in range(b + 1)) * R1
+            if kind == "hyperband" and fin[1]:
+                from harness.suite_hyperband import round0_account
+                msg = round0_account(o, gave_up=box.get("gave_up", False))
+                if msg:
+                    raise Violation("C11", "hyperband: " + msg + (" (the process was replaced by a fresh one in mid-search)" if box["extra_runs"] or any(e[0] == "restart" for e in tr) else ""),
+                                    {"kind": kind, "tag": "schedule-account"})
+            bound += box["extra_runs"]
             if runs[0] > bound:
                 raise Violation("C11", f"{kind}: {runs[0]} trial runs exceed the bound {bound}", {"kind": kind, "tag": "bound"})
         return tr, runs[0], aborted
